@@ -1902,6 +1902,12 @@ fn sigs_of(ops: &[String], cfg: &Cfg, scratch: &std::path::Path) -> Vec<String> 
     text.lines().filter_map(|l| serde_json::from_str::<serde_json::Value>(l).ok()).filter_map(|v| v.get("sig").and_then(|s| s.as_str()).map(|s| s.to_string())).collect()
 }
 
+/// A removal is kept only if the shorter history fails sixteen times out of sixteen: some failures depend on the
+/// per-map hash seed, and a replay that reproduces half of the time is a poor replay.
+fn still_fails(cand: &[String], sig: &str, cfg: &Cfg, scratch: &std::path::Path) -> bool {
+    (0..16).all(|_| sigs_of(cand, cfg, scratch).iter().any(|s| s == sig))
+}
+
 /// Greedy one-at-a-time removal (from the end), repeated until no single removal keeps the failure.
 fn shrink_history(ops: &[String], sig: &str, cfg: &Cfg, scratch: &std::path::Path, deadline: Instant) -> Vec<String> {
     let mut cur: Vec<String> = ops.to_vec();
@@ -1918,7 +1924,7 @@ fn shrink_history(ops: &[String], sig: &str, cfg: &Cfg, scratch: &std::path::Pat
             if !cur[lo..i].iter().any(|l| l.starts_with("reset ")) {
                 let mut cand = cur.clone();
                 cand.drain(lo..i);
-                if sigs_of(&cand, cfg, scratch).iter().any(|s| s == sig) {
+                if still_fails(&cand, sig, cfg, scratch) {
                     cur = cand;
                 }
             }
@@ -1938,7 +1944,7 @@ fn shrink_history(ops: &[String], sig: &str, cfg: &Cfg, scratch: &std::path::Pat
             }
             let mut cand = cur.clone();
             cand.remove(i);
-            if sigs_of(&cand, cfg, scratch).iter().any(|s| s == sig) {
+            if still_fails(&cand, sig, cfg, scratch) {
                 cur = cand;
                 changed = true;
             }
